@@ -288,7 +288,7 @@ def run_exe(fl, case, rd, nt, dseed, preload, log=True):
     env = vf.lib_env(fl, extra)
     env["ASAN_OPTIONS"] += ":verify_asan_link_order=0"
     return vf.run_proc([vf.exe(fl, case["kind"])] + case["opts"] +
-                       ["--nt", str(nt)], env=env, cwd=rd, timeout=300)
+                       ["--nt", str(nt)], env=env, cwd=rd, timeout=90)
 
 
 def check_event_log(path, case, nt):
